@@ -32,7 +32,27 @@ type Check struct {
 
 var registry = map[string]*Check{}
 
-func register(c *Check) { registry[c.ID] = c }
+func register(c *Check) {
+	registry[c.ID] = c
+}
+
+// scenariosOf applies the experiment override VERIF_BOUND (e.g. -1 = unbounded) to every scenario.
+func scenariosOf(c *Check, tier string) []*explore.Scenario {
+	if c.Scenarios == nil {
+		return nil
+	}
+	scs := c.Scenarios(tier)
+	if v := os.Getenv("VERIF_BOUND"); v != "" {
+		if b, err := strconv.Atoi(v); err == nil {
+			for _, sc := range scs {
+				if !sc.Cfg.Strict || os.Getenv("VERIF_BOUND_STRICT") != "" {
+					sc.Bound = b
+				}
+			}
+		}
+	}
+	return scs
+}
 
 // SeqViolation is a violating history found by a SEQ enumeration.
 type SeqViolation struct {
@@ -148,7 +168,7 @@ func runWorker(c *Check, tier string, shard, shards int, out string) {
 	res := &WorkerResult{Scen: map[string]*explore.Stats{}}
 	deadline := tierDeadline(tier)
 	if c.Scenarios != nil {
-		for _, sc := range c.Scenarios(tier) {
+		for _, sc := range scenariosOf(c, tier) {
 			st, found := explore.Explore(sc, explore.Options{Shard: shard, Shards: shards, Deadline: deadline, MaxFound: 3})
 			res.Scen[sc.Name] = st
 			res.Found = append(res.Found, found...)
@@ -285,10 +305,8 @@ func coordinator(c *Check, tier string) int {
 	printed := map[string]bool{}
 	// SCHED violations: confirm determinism by replaying, then report
 	scByName := map[string]*explore.Scenario{}
-	if c.Scenarios != nil {
-		for _, sc := range c.Scenarios(tier) {
-			scByName[sc.Name] = sc
-		}
+	for _, sc := range scenariosOf(c, tier) {
+		scByName[sc.Name] = sc
 	}
 	sort.Slice(found, func(i, j int) bool { return len(found[i].Prefix) < len(found[j].Prefix) })
 	for _, f := range found {
